@@ -3,6 +3,7 @@ package main
 import (
 	"fmt"
 	"reflect"
+	"sort"
 	"strings"
 
 	nject "github.com/muir/nject/v2"
@@ -245,6 +246,51 @@ func annotate(p *ProvDesc, x any) any {
 	return x
 }
 
+// apiNoise derives new providers / collections from x with the annotation functions, Provide and Cluster and throws
+// the results away.  Annotating makes a copy (C11): nothing may change for x itself, so every check that builds its
+// chains through buildCollection also decides, on the side, that derivations do not leak into their originals.
+func apiNoise(x any, seed uint64, name string) {
+	defer func() { _ = recover() }()
+	fns := []func(any) any{
+		func(y any) any { return nject.Required(y) }, func(y any) any { return nject.Desired(y) },
+		func(y any) any { return nject.Shun(y) }, func(y any) any { return nject.Cacheable(y) },
+		func(y any) any { return nject.MustCache(y) }, func(y any) any { return nject.NotCacheable(y) },
+		func(y any) any { return nject.Memoize(y) }, func(y any) any { return nject.Singleton(y) },
+		func(y any) any { return nject.NonFinal(y) }, func(y any) any { return nject.Reorder(y) },
+		func(y any) any { return nject.Parallel(y) },
+		func(y any) any { return nject.Provide("noise", y) },
+		// (a Cluster of one member is not a cluster)
+		func(y any) any { return nject.Cluster(name, y, func(T0) {}) },
+		func(y any) any { return nject.Cluster("noise", func(T0) {}, y) },
+	}
+	for _, m := range []map[int]func(any) nject.Provider{looseFn, mustConsumeFn, consOptFn, shadowOKFn} {
+		keys := make([]int, 0, len(m))
+		for k := range m {
+			keys = append(keys, k)
+		}
+		sort.Ints(keys)
+		for _, k := range keys {
+			f := m[k]
+			fns = append(fns, func(y any) any { return f(y) })
+		}
+	}
+	// every single derivation, and two chains of two chosen by the seed
+	for _, f := range fns {
+		func() {
+			defer func() { _ = recover() }()
+			_ = f(x)
+		}()
+	}
+	h := seed*0x9e3779b97f4a7c15 + 0x7f4a7c15
+	next := func() int { h ^= h >> 29; h *= 0xbf58476d1ce4e5b9; h ^= h >> 32; return int(h % uint64(len(fns))) }
+	for i := 0; i < 2; i++ {
+		func() {
+			defer func() { _ = recover() }()
+			_ = fns[next()](fns[next()](x))
+		}()
+	}
+}
+
 // buildCollection assembles the collection; adjacent providers with the same non-zero Cluster
 // number are grouped with nject.Cluster.
 func (r *caseRun) buildCollection(name string) *nject.Collection {
@@ -265,6 +311,12 @@ func (r *caseRun) buildCollection(name string) *nject.Collection {
 		}
 		items = append(items, annotate(p, r.rawProvider(p)))
 		i++
+	}
+	noisy := (uint64(r.c.Seed)/7)%2 == 0
+	if noisy {
+		for q, it := range items {
+			apiNoise(it, uint64(r.c.Seed)*31+uint64(q), name)
+		}
 	}
 	// The same list is put together by different routes (C13 says they are equivalent): flat, nested, or appended to a
 	// base collection from which a second, unrelated collection is appended as well (aliasing of the base's slice).
@@ -287,6 +339,9 @@ func (r *caseRun) buildCollection(name string) *nject.Collection {
 		_ = other.String()
 	default:
 		c = nject.Sequence(name, items...)
+	}
+	if noisy {
+		apiNoise(c, uint64(r.c.Seed)*31+977, name)
 	}
 	ids := nject.VerifIDs(c)
 	r.idOf = make(map[int32]int)
